@@ -67,6 +67,24 @@ def _unreduced(s: SymInt, k: int) -> Any:
 
 
 @dataclass(frozen=True)
+class Obj:
+    """Abstract object: class name (for isinstance through the class table), identity tag, known fields."""
+
+    cls: str
+    tag: str = ""
+    fields: tuple[tuple[str, Any], ...] = ()
+
+    def get(self, attr: str) -> Any:
+        for k, v in self.fields:
+            if k == attr:
+                return v
+        return UNKNOWN
+
+    def __repr__(self) -> str:
+        return f"<{self.cls}{':' + self.tag if self.tag else ''}>"
+
+
+@dataclass(frozen=True)
 class Raise:
     exc: str
 
@@ -80,6 +98,8 @@ class Outcome:
 def truth(v: Any) -> bool | None:
     if v is UNKNOWN or isinstance(v, (SymInt, _Unred)):
         return None
+    if isinstance(v, Obj):
+        return True
     if isinstance(v, Sym):
         return True if v.name.startswith("obj:") else None
     try:
@@ -97,6 +117,13 @@ def sym_eq(a: Any, b: Any) -> bool | None:
     if a is UNKNOWN or b is UNKNOWN:
         return None
     if isinstance(a, _Unred) or isinstance(b, _Unred):
+        return None
+    if isinstance(a, Obj) or isinstance(b, Obj):
+        if isinstance(a, Obj) and isinstance(b, Obj):
+            return (a.cls, a.tag) == (b.cls, b.tag)
+        other = b if isinstance(a, Obj) else a
+        if other is None or isinstance(other, (bool, int, str, bytes, float, tuple)):
+            return False
         return None
     if isinstance(a, SymInt) and isinstance(b, SymInt):
         if a.base == b.base and a.mod == b.mod:
@@ -134,6 +161,7 @@ class AbsMachine:
         self.call_model = call_model
         self.name_hook = name_hook
         self.stmt_hook = stmt_hook
+        self.isinstance_fn: Callable[[str, str], bool | None] | None = None
 
     # ---------------------------------------------------------- evaluation
     def ev(self, e: ast.AST, env: Env, chosen: dict[int, Any]) -> Any:
@@ -157,12 +185,27 @@ class AbsMachine:
                 base = self.ev(e.value, env, chosen)
                 if isinstance(base, dict) and e.attr in base:
                     return base[e.attr]
+                if isinstance(base, Obj):
+                    return base.get(e.attr)
             return UNKNOWN
         if isinstance(e, ast.Tuple):
             return tuple(self.ev(x, env, chosen) for x in e.elts)
         if isinstance(e, ast.Call):
             if id(e) in chosen:
                 return chosen[id(e)]
+            if isinstance(e.func, ast.Name) and e.func.id == "isinstance" and len(e.args) == 2:
+                v = self.ev(e.args[0], env, chosen)
+                tys = e.args[1].elts if isinstance(e.args[1], ast.Tuple) else [e.args[1]]
+                if isinstance(v, Obj) and self.isinstance_fn is not None:
+                    res = [self.isinstance_fn(v.cls, ast.unparse(t)) for t in tys]
+                    if any(r is True for r in res):
+                        return True
+                    if all(r is False for r in res):
+                        return False
+                    return UNKNOWN
+                if v is None:
+                    return False
+                return UNKNOWN
             for a in e.args:
                 self.ev(a, env, chosen)
             return UNKNOWN
@@ -431,3 +474,20 @@ class AbsMachine:
             # a node the CFG thought could not raise: propagate to function raise exit
             return self.cfg.raise_exit
         return outer
+
+
+def class_isinstance(repo, default_module: str | None = None) -> Callable[[str, str], bool | None]:
+    """isinstance over the repo class table by (unique) class name; dotted type names use the last component."""
+    by_name: dict[str, list] = {}
+    for ci in repo.all_classes():
+        by_name.setdefault(ci.name, []).append(ci)
+
+    def fn(cls_name: str, type_name: str) -> bool | None:
+        t = type_name.split(".")[-1]
+        cs = by_name.get(cls_name)
+        if not cs or t not in by_name:
+            return None
+        names = {c.name for c in repo.mro(cs[0])}
+        return t in names
+
+    return fn
